@@ -137,7 +137,8 @@ def run_history(wd, cfg, history, off, keep_as=None):
         for step, op in enumerate(history):
             if op == 'A':
                 rec = io.record(cur_cfg, k_app, off)
-                t, u = io.time_value(rec[0]), io.field_array(cur_cfg, rec[1])
+                # the memory layout of the array handed over cycles with the record number and the pool offset
+                t, u = io.time_value(rec[0]), io.field_array(cur_cfg, rec[1], io.LAYOUTS[(k_app + off) % len(io.LAYOUTS)])
                 out, before, after = hist.do(op, lambda: cur.addField(t, u))
                 if out[0] != 'ok':
                     return (step, op, 'append_raised', None, {'raised': repr(out[1])}), info
